@@ -37,7 +37,7 @@ fn class(t: &HashSet<D>, root: D, a: &HashSet<D>, absent: bool) -> &'static str 
 pub fn run(ctx: &Ctx) -> i32 {
     let th = ctx.tier.thorough();
     let w = if th { 8 } else { 7 };
-    let mut trees = families::plain(w); trees.extend(families::nsn());
+    let mut trees = families::plain(w); trees.extend(families::nsn()); trees.extend(families::valued());
     let nplain = trees.len();
     trees.extend(families::marked(w));
     // sources that already contain obscured elements: every single-target obscuration (three actions) of the light trees; their digest sets
